@@ -151,6 +151,26 @@ fn nt_c08(h: &Hist) -> bool {
     !h.stats.is_empty() && (cross || exit_queued)
 }
 
+fn o_c09(h: &Hist) -> Vec<Viol> {
+    oracle::c09(&Index::new(h))
+}
+
+fn nt_c09(h: &Hist) -> bool {
+    let full_push = h.hooks.iter().position(|e| matches!(e.kind, HookKind::BeforePush { free: 0, .. }));
+    match full_push {
+        Some(i) => {
+            let t = h.hooks[i].t;
+            let later_op = h.hooks.iter().skip(i + 1).any(|e| matches!(e.kind, HookKind::Command { .. }));
+            later_op && h.cycles.iter().any(|c| c.t0 > t)
+        }
+        None => false,
+    }
+}
+
+fn nt_c09_limits(h: &Hist) -> bool {
+    h.limit_hit && (h.labels.contains_key("burst") || h.labels.contains_key("nest"))
+}
+
 fn o_c03(h: &Hist) -> Vec<Viol> {
     oracle::c03(&Index::new(h), "C03")
 }
@@ -465,6 +485,64 @@ pub fn spec(id: &str, variant: &str, cancelable: bool, thorough: bool) -> Option
             oracle: o_c08,
             nontrivial: nt_c08,
             rule: "histories of trace starts/finishes/cancels and vthread births/exits (2-5 vthreads, roots started and finished through different vthreads' queues), both configs, collector cycles cut anywhere by the schedule; collector_stats() sampled whenever the collector is idle and at quiescence; non-trivial = a trace whose start and commit/drop travel through different receivers with a cycle step between them, or a vthread exit with commands still queued; distinct = hash of the executed model shape and schedule",
+        },
+        ("C09", "sched") => PropSpec {
+            id: "C09",
+            profile: big(Profile {
+                threads: (1, 3),
+                ops: (0, 14),
+                cycles: (1, 8),
+                sched_len: (0, 40),
+                cancelable: Some(cancelable),
+                templates: vec![(3, Template::OverflowReplay)],
+                ..base.clone().set(&[
+                    (K::Fill, 10),
+                    (K::Cancel, 6),
+                    (K::Finish, 18),
+                    (K::Root, 12),
+                    (K::Exit, 2),
+                    (K::Flush, 3),
+                    (K::AddEventH, 3),
+                    (K::AddPropsH, 2),
+                    (K::AddEventL, 2),
+                    (K::Burst, 0),
+                ])
+            }),
+            opts: ExecOpts {
+                stats: true,
+                exclude: vec!["dup_unit_attach", "clp_empty_token"],
+                ..ExecOpts::new(Mode::Sched)
+            },
+            oracle: o_c09,
+            nontrivial: nt_c09,
+            rule: "fault injection: ring-fill episodes (leave 0-3 slots free) at generated points, then a generated mix of operations during the episode (finish, cancel, root start, scopes, attachments, thread exit) and recovery cycles placed by the generated schedule; directed template 'overflow replay' (fill, cancel, finish, cycle, further sends) mixed with free generation; non-trivial = >=1 command pushed while free==0 followed by >=1 further operation and a collector cycle; distinct = hash of the executed model shape and schedule",
+        },
+        ("C09", "limits") => PropSpec {
+            id: "C09",
+            profile: Profile {
+                threads: (1, 2),
+                ops: (2, 14),
+                cycles: (0, 2),
+                cancelable: Some(cancelable),
+                ..base.clone().set(&[
+                    (K::Burst, 9),
+                    (K::Nest, 4),
+                    (K::EnterLocal, 16),
+                    (K::AddEventL, 5),
+                    (K::AddPropsL, 4),
+                    (K::ChildOfLocal, 5),
+                    (K::SetLocalParent, 14),
+                    (K::CollectorStart, 3),
+                    (K::PushChildSpans, 2),
+                ])
+            },
+            opts: ExecOpts {
+                exclude: vec!["dup_unit_attach", "clp_empty_token"],
+                ..api.clone()
+            },
+            oracle: o_c09,
+            nontrivial: nt_c09_limits,
+            rule: "scope-limit episodes: a scope is filled to 10240-25+k entries (k in 0..60; local spans, events or properties) or scopes are nested to 4096-20+k, followed by further generated local operations; non-trivial = a limit was hit and >=1 further operation followed; distinct = hash of the executed model shape",
         },
         ("C02", _) => PropSpec {
             id: "C02",
